@@ -206,7 +206,11 @@ func c15Schedules(r *rng, n int) []*spec.Schedule {
 	var out []*spec.Schedule
 	out = append(out, &spec.Schedule{Policy: "rr"})
 	for len(out) < n {
-		switch r.intn(4) {
+		switch r.intn(5) {
+		case 4:
+			// short, frequent stalls at yield points (before atomic operations, locks, shared variables, sampled loop
+			// iterations): windows of lock-free and check-then-act code
+			out = append(out, &spec.Schedule{Policy: "stall", Seed: r.next(), Depth: pick(r, 10, 30, 80), Steps: pick(r, 12, 24, 60), LoopPct: pick(r, 0, 2, 10, 40), EntryPct: pick(r, 0, 0, 3)})
 		case 0:
 			out = append(out, &spec.Schedule{Policy: "random", Seed: r.next(), EntryPct: pick(r, 0, 0, 3, 15)})
 		case 1:
@@ -571,8 +575,10 @@ func (cx *Ctx) runC15() {
 			// lock-free structures break inside a window of one or two instructions and only if the stalled caller stays
 			// stalled while the others make real progress: priority schedules with preemption inside loops
 			for si := range scheds {
-				if si%2 == 1 {
+				if si%4 == 1 {
 					scheds[si] = &spec.Schedule{Policy: "pct", Seed: r.next(), Depth: r.between(2, 3), EntryPct: pick(&r, 0, 3), LoopPct: pick(&r, 2, 10, 40)}
+				} else if si%2 == 1 || si%4 == 2 {
+					scheds[si] = &spec.Schedule{Policy: "stall", Seed: r.next(), Depth: pick(&r, 10, 30, 80), Steps: pick(&r, 12, 24, 60), LoopPct: pick(&r, 2, 10, 40)}
 				}
 			}
 		}
@@ -583,7 +589,7 @@ func (cx *Ctx) runC15() {
 			if dense && sc.LoopPct == 0 && sc.EntryPct == 0 {
 				sc = &spec.Schedule{Policy: "random", Seed: r.next(), EntryPct: 3, LoopPct: 10}
 			}
-			if sc.Policy == "pct" {
+			if sc.Policy == "pct" && sc.Steps == 0 {
 				// each caller makes roughly 20-80 shared-state accesses; change points are spread over that many steps
 				sc.Steps = 50 * k
 				if sc.EntryPct > 0 {
